@@ -46,12 +46,16 @@ type implDriver struct {
 	preamble []string // reset + definitions, replayed after every restart
 	memLimit string
 	restarts int
+	vlimitKB int // address-space limit of the child in KiB (0 = none)
 }
 
 // runOnce feeds preamble+ops to a fresh child and returns the answers obtained
 // for ops (possibly fewer than len(ops) if the child died).
 func (d *implDriver) runOnce(ops []string, flushEach bool) []string {
 	cmd := exec.Command(d.bin)
+	if d.vlimitKB > 0 {
+		cmd = exec.Command("sh", "-c", fmt.Sprintf("ulimit -v %d; exec %q", d.vlimitKB, d.bin))
+	}
 	mem := d.memLimit
 	if mem == "" {
 		mem = "3GiB"
